@@ -365,6 +365,12 @@ pub(crate) fn process_handler_blueprint(
     }
 
     HandlerSqeBlueprint::RequestClose => {
+      // A read that is still pending in the kernel holds its own reference to the socket, so
+      // Close alone would leave the connection open (no FIN) until the peer happens to send
+      // or close. Shutting the socket down first sends the FIN and completes those reads now.
+      unsafe {
+        libc::shutdown(fd, libc::SHUT_RDWR);
+      }
       let mut entry = opcode::Close::new(types::Fd(fd)).build();
       let user_data = internal_ops.new_op_id(fd, InternalOpType::CloseFd, InternalOpPayload::None);
       entry = entry.user_data(user_data);
@@ -1348,6 +1354,13 @@ pub(crate) fn process_all_cqes(
                 .fds_needing_close_initiated_pass
                 .push_back(handler_fd);
             }
+          } else if let (Some(bid), Some(bm)) = (
+            cqueue::buffer_select(cqe_flags),
+            worker.buffer_manager.as_ref(),
+          ) {
+            // The handler is gone (its fd was closed) but the kernel still picked a provided
+            // buffer for this read: hand it back or the ring runs dry.
+            let _ = bm.reprovide_buffer(bid);
           }
         }
         InternalOpType::RingReadMultishot => {
@@ -1363,6 +1376,15 @@ pub(crate) fn process_all_cqes(
             .push_back(handler_fd);
         }
         _ => { /* Other op types handled by peek-logic or are errors */ }
+      }
+    } else if !is_multishot_read_pending_more && !was_delegated_to_multishot_handler {
+      // Completion of an operation nobody tracks any more (its fd was closed meanwhile). If the
+      // kernel selected a provided buffer for it, the buffer must go back to the ring.
+      if let (Some(bid), Some(bm)) = (
+        cqueue::buffer_select(cqe_flags),
+        worker.buffer_manager.as_ref(),
+      ) {
+        let _ = bm.reprovide_buffer(bid);
       }
     }
   }
